@@ -825,3 +825,282 @@ func checkChildLifetime(c *Ctx, r *Report, rule string) {
 		r.OK(rule, construct, "-", "no SysProcAttr / CommandContext in package transport")
 	}
 }
+
+// ---- C14: the "system default" file options take the first candidate that resolves, the user's first ----------
+
+// nilErrEdgeSucc: for an `if err == nil` / `if err != nil` on the error result of call, the successor entered when the
+// call succeeded.
+func successSuccs(call *ssa.Call) []*ssa.BasicBlock {
+	var out []*ssa.BasicBlock
+	for _, ev := range errResultsOf(call) {
+		for _, ref := range *ev.Referrers() {
+			cmp, ok := ref.(*ssa.BinOp)
+			if !ok {
+				continue
+			}
+			v, nonNilOnTrue, okc := nilCheck(cmp)
+			if !okc || v != ev {
+				continue
+			}
+			isNil := !nonNilOnTrue
+			for _, r2 := range *cmp.Referrers() {
+				iff, ok := r2.(*ssa.If)
+				if !ok {
+					continue
+				}
+				b := iff.Block()
+				if isNil {
+					out = append(out, b.Succs[0])
+				} else {
+					out = append(out, b.Succs[1])
+				}
+			}
+		}
+	}
+	return out
+}
+
+func checkSystemFilesFirstWins(c *Ctx, r *Report, rule string) {
+	resolve := c.LookupFunc("util", "", "ResolveFilePath")
+	if resolve == nil {
+		r.Anchor(rule, "util.ResolveFilePath")
+		return
+	}
+	n := 0
+	for _, fn := range c.LibFns {
+		if fn.Pkg == nil || !strings.HasSuffix(fn.Pkg.Pkg.Path(), "/driver/options") {
+			continue
+		}
+		var calls []*ssa.Call
+		for _, ci := range callInstrs(fn) {
+			if call, ok := ci.(*ssa.Call); ok && call.Call.StaticCallee() == resolve {
+				calls = append(calls, call)
+			}
+		}
+		// (a) a resolve inside a loop: success must leave the loop
+		for _, call := range calls {
+			if !inLoop(call.Block()) {
+				continue
+			}
+			n++
+			construct := "candidate loop in " + shortFn(fn)
+			bad := false
+			for _, s := range successSuccs(call) {
+				// from the success edge, can the resolve be reached again?
+				seen := map[*ssa.BasicBlock]bool{}
+				work := []*ssa.BasicBlock{s}
+				for len(work) > 0 {
+					b := work[len(work)-1]
+					work = work[:len(work)-1]
+					if seen[b] {
+						continue
+					}
+					seen[b] = true
+					if b == call.Block() {
+						bad = true
+						break
+					}
+					work = append(work, b.Succs...)
+				}
+			}
+			if len(successSuccs(call)) == 0 {
+				r.Unk(rule, construct, c.Pos(call.Pos()), "the error of the resolve inside the loop is not tested")
+			} else if bad {
+				r.Bad(rule, construct, c.Pos(call.Pos()), "after a candidate resolved the loop goes on to the next one: the LAST resolvable candidate wins, so a system-wide file overrides the user's own ssh config / known-hosts file")
+			} else {
+				r.OK(rule, construct, c.Pos(call.Pos()), "the first candidate that resolves ends the search")
+			}
+		}
+		// (b) several constant candidates tried in sequence: the user's (~) first, later ones only after a failure
+		var consts []string
+		for _, call := range calls {
+			if s, ok := constString(call.Call.Args[0]); ok {
+				consts = append(consts, s)
+			}
+		}
+		if len(consts) >= 2 && len(consts) == len(calls) {
+			n++
+			construct := "candidate order in " + shortFn(fn)
+			ok := strings.HasPrefix(consts[0], "~")
+			for i := 1; i < len(calls) && ok; i++ {
+				// the later call must not be reachable from the earlier call's success edge
+				for _, s := range successSuccs(calls[i-1]) {
+					if s == calls[i].Block() || blockReaches(s, calls[i].Block()) {
+						ok = false
+					}
+				}
+				if !dominatesInstr(calls[i-1], calls[i]) {
+					ok = false
+				}
+			}
+			if ok {
+				r.OK(rule, construct, c.Pos(calls[0].Pos()), "user-level path first, the next only after it failed to resolve")
+			} else {
+				r.Bad(rule, construct, c.Pos(calls[0].Pos()), fmt.Sprintf("the candidates %v are not tried user-level first with the next one only on failure: a system-wide file can override the user's own ssh config / known-hosts file", consts))
+			}
+		}
+		// (c) constants handed to a candidate helper: user-level first
+		for _, ci := range callInstrs(fn) {
+			call, ok := ci.(*ssa.Call)
+			if !ok || call.Call.StaticCallee() == nil || call.Call.StaticCallee().Pkg != fn.Pkg || call.Call.StaticCallee() == resolve {
+				continue
+			}
+			var cs []string
+			for _, a := range call.Call.Args {
+				if vs := varargValues(a); vs != nil {
+					for _, v := range vs {
+						if s, ok := constString(v); ok {
+							cs = append(cs, s)
+						}
+					}
+				} else if s, ok := constString(a); ok {
+					cs = append(cs, s)
+				}
+			}
+			if len(cs) >= 2 && strings.Contains(cs[0]+cs[1], "ssh") {
+				n++
+				r.Check(strings.HasPrefix(cs[0], "~"), rule, "candidate list in "+shortFn(fn), c.Pos(call.Pos()), "user-level path listed first", fmt.Sprintf("the candidate list %v does not start with the user-level path", cs))
+			}
+		}
+	}
+	if n < 2 {
+		r.Unk(rule, "system default file options", "-", fmt.Sprintf("only %d candidate searches found in driver/options (2 confirmed by reading)", n))
+	}
+}
+
+func blockReaches(from, to *ssa.BasicBlock) bool {
+	seen := map[*ssa.BasicBlock]bool{}
+	work := []*ssa.BasicBlock{from}
+	for len(work) > 0 {
+		b := work[len(work)-1]
+		work = work[:len(work)-1]
+		if b == to {
+			return true
+		}
+		if seen[b] {
+			continue
+		}
+		seen[b] = true
+		work = append(work, b.Succs...)
+	}
+	return false
+}
+
+// ---- C15: one Open dials (and negotiates on) one connection ------------------------------------------------
+
+// dialPaths counts the static call-site paths from fn to net.Dial* (a site inside a loop counts as many).
+func dialPaths(c *Ctx, fn *ssa.Function, onStack map[*ssa.Function]bool, depth int) int {
+	if depth > 4 || onStack[fn] || fn.Blocks == nil {
+		return 0
+	}
+	onStack[fn] = true
+	defer delete(onStack, fn)
+	total := 0
+	for _, g := range append([]*ssa.Function{fn}, AnonFuncsDeep(fn)...) {
+		for _, ci := range callInstrs(g) {
+			k := 0
+			if o := CalleeObj(ci); o != nil && o.Pkg() != nil && o.Pkg().Path() == "net" && strings.HasPrefix(o.Name(), "Dial") {
+				k = 1
+			} else if sc := ci.Common().StaticCallee(); sc != nil && sc.Pkg == fn.Pkg {
+				k = dialPaths(c, sc, onStack, depth+1)
+			}
+			if k > 0 && inLoop(ci.Block()) {
+				k = 100
+			}
+			total += k
+		}
+	}
+	return total
+}
+
+func checkTelnetSingleDial(c *Ctx, r *Report, rule string) {
+	open := c.LookupFunc("transport", "Telnet", "Open")
+	buf := c.LookupField("transport", "Telnet", "initialBuf")
+	if open == nil {
+		r.Anchor(rule, "(*transport.Telnet).Open")
+		return
+	}
+	n := dialPaths(c, open, map[*ssa.Function]bool{}, 0)
+	construct := "Telnet.Open dials one connection"
+	switch {
+	case n == 1:
+		r.OK(rule, construct, c.Pos(open.Pos()), "one call-site path to net.Dial, not in a loop")
+	case n == 0:
+		r.Unk(rule, construct, c.Pos(open.Pos()), "no net.Dial reachable from Telnet.Open through the package's own functions")
+	default:
+		// a retry is only sound when the data pre-read from the abandoned connection is dropped first
+		reset := false
+		if buf != nil {
+			tree := c.reachFns([]*ssa.Function{open}, func(_ ssa.CallInstruction, callee *ssa.Function) bool { return callee.Pkg == open.Pkg }, false)
+			for fn := range tree {
+				allInstrs(fn, func(in ssa.Instruction) {
+					if f, _, val, ok := fieldStore(in); ok && f == buf {
+						if isNilConst(val) {
+							reset = true
+						}
+						if sl, ok := val.(*ssa.Slice); ok && sl.High != nil {
+							if k, ok := constInt(sl.High); ok && k == 0 {
+								reset = true
+							}
+						}
+						if mk, ok := val.(*ssa.MakeSlice); ok {
+							if k, ok := constInt(mk.Len); ok && k == 0 {
+								reset = true
+							}
+						}
+					}
+				})
+			}
+		}
+		if reset {
+			r.Unk(rule, construct, c.Pos(open.Pos()), "Telnet.Open can dial more than once and the pre-read buffer is reset somewhere: whether every re-dial is preceded by the reset is outside this rule's vocabulary")
+		} else {
+			r.Bad(rule, construct, c.Pos(open.Pos()), "one Open can dial (and negotiate on) more than one connection, and the bytes pre-read from an abandoned attempt are never dropped: the first reads of the session deliver the tail of a dead connection ahead of the real banner")
+		}
+	}
+}
+
+// ---- C06: no library consumer reads the queue without observing the reader's exit -----------------------------
+
+// checkNoBlindConsumer: Channel.ReadAll polls the error channel but not the exited flag (the read loop leaves
+// silently on end-of-stream), so a library loop that waits for device output through ReadAll never notices EOF.
+func checkNoBlindConsumer(c *Ctx, r *Report, rule string) {
+	ra := c.LookupFunc("channel", "Channel", "ReadAll")
+	rd := c.LookupFunc("channel", "Channel", "Read")
+	if ra == nil || rd == nil {
+		r.Anchor(rule, "(*channel.Channel).ReadAll / Read")
+		return
+	}
+	// does ReadAll observe the exited flag itself?
+	exited := c.LookupField("channel", "Channel", "readLoopExited")
+	observes := false
+	if exited != nil {
+		allInstrs(ra, func(in ssa.Instruction) {
+			if u, ok := in.(*ssa.UnOp); ok {
+				if f, _, ok := fieldLoad(u); ok && f == exited {
+					observes = true
+				}
+			}
+		})
+	}
+	n := 0
+	for _, fn := range c.LibFns {
+		for _, ci := range callInstrs(fn) {
+			if ci.Common().StaticCallee() != ra {
+				continue
+			}
+			n++
+			construct := fmt.Sprintf("ReadAll used in %s", shortFn(fn))
+			if observes {
+				r.OK(rule, construct, c.Pos(ci.Pos()), "ReadAll observes the reader's exit")
+			} else if inLoop(ci.Block()) {
+				r.Bad(rule, construct, c.Pos(ci.Pos()), "a library loop waits for device output through Channel.ReadAll, which polls the error channel but not the reader's exited flag: the read loop leaves silently on end-of-stream, so the loss is never seen and the operation waits out its timeout")
+			} else {
+				r.OK(rule, construct, c.Pos(ci.Pos()), "a single drain, not a wait")
+			}
+		}
+	}
+	if n == 0 {
+		r.OK(rule, "library consumers of the queue", "-", "no library function calls Channel.ReadAll: every wait goes through Channel.Read, which tests the exited flag")
+	}
+}
